@@ -285,9 +285,64 @@ import types
 class EnumCtx:
     def __init__(self):
         self.errors = []      # (cond, description)
+        self.fork = False     # True: symbolic conditions in Python control flow fork the run (fork_run)
+        self.decisions = []   # [taken, has_alternative] per symbolic branch point, in execution order
+        self.pos = 0
+        self.pc = []          # path condition (z3 Bools)
 
     def error(self, cond, what):
-        self.errors.append((cond, what))
+        self.errors.append((z3.And(*self.pc, cond) if self.pc else cond, what))
+
+    def _sat(self, extra):
+        s = z3.Solver()
+        s.add(*self.pc)
+        s.add(extra)
+        return str(s.check()) != "unsat"
+
+    def branch(self, tcond, fcond):
+        i = self.pos
+        self.pos += 1
+        if i < len(self.decisions):
+            d = self.decisions[i][0]
+        else:
+            ts, fs = self._sat(tcond), self._sat(fcond)
+            if not ts and not fs:
+                raise _Infeasible()
+            d = ts
+            self.decisions.append([d, ts and fs])
+        self.pc.append(tcond if d else fcond)
+        return d
+
+
+class _Infeasible(Exception):
+    pass
+
+
+def fork_run(fn):
+    """run fn() once per feasible path through its symbolic branch points; yields (path_condition, result_or_None, errors)"""
+    global _ECTX
+    decisions = []
+    while True:
+        prev = _ECTX
+        ctx = _ECTX = EnumCtx()
+        ctx.fork = True
+        ctx.decisions = [list(d) for d in decisions]
+        res = None
+        try:
+            res = fn()
+        except _Infeasible:
+            pass
+        except Exception as e:
+            ctx.error(z3.BoolVal(True), "%s: %s" % (type(e).__name__, e))
+        finally:
+            _ECTX = prev
+        yield (z3.And(*ctx.pc) if ctx.pc else z3.BoolVal(True)), res, ctx.errors
+        decisions = ctx.decisions
+        while decisions and not (decisions[-1][0] and decisions[-1][1]):
+            decisions.pop()
+        if not decisions:
+            return
+        decisions[-1] = [False, False]
 
 
 _ECTX = None
@@ -348,6 +403,8 @@ class SymEnum:
         vals = {bool(v) for c, v in self.cases}
         if len(vals) == 1:
             return vals.pop()
+        if _ECTX is not None and _ECTX.fork:
+            return _ECTX.branch(z3.Or(*[c for c, v in self.cases if v]), z3.Or(*[c for c, v in self.cases if not v]))
         raise TypeError("symbolic condition in Python control flow")
 
     def __hash__(self):
